@@ -1,4 +1,5 @@
 import QuantemModel.Props.C14
+import QuantemModel.Model.SerializeAttrsExt
 /-!
 C14, growth round 6.
 
@@ -199,6 +200,72 @@ theorem ptycho_history (inst : Val → String → Bool) (hI : InstOk inst) (pool
   have h := skip_history inst hI pool fs0 pre post c b cls attrs hv hw ha hlevel hfree hsave hpost hty
   rw [h, hskip, (ptychoSkip_spec a raw).1, (ptychoSkip_spec a raw).2]
 
+/-! ### 4. attrs classes (`__attrs_attrs__`): only the declared fields are items -/
+
+theorem viewA_nonobj (ci : ClassInfo) (v : Val) (h : isObjV v = false) : viewA ci v = v := by
+  cases v <;> simp [isObjV] at h <;> simp [viewA]
+
+/-- the view keeps graphs well-formed and attribute-nested -/
+theorem viewAttrs_facts (ci : ClassInfo) : ∀ attrs, ∀ f : Option (List String),
+    wfAttrs attrs = true → attrNestedAttrs attrs = true →
+    wfAttrs (viewAttrs ci f attrs) = true ∧ attrNestedAttrs (viewAttrs ci f attrs) = true := by
+  apply attrs_ind
+  · intro f _ _; simp [viewAttrs, wfAttrs, attrNestedAttrs]
+  · intro k cls sub rest ih1 ih2 f hw ha
+    have hw' : wfAttrs sub = true ∧ wfAttrs rest = true := by simpa [wfAttrs, wfA] using hw
+    have ha' : attrNestedAttrs sub = true ∧ attrNestedAttrs rest = true := by
+      simpa [attrNestedAttrs, attrNested] using ha
+    obtain ⟨a1, a2⟩ := ih1 (ci cls) hw'.1 ha'.1
+    obtain ⟨b1, b2⟩ := ih2 f hw'.2 ha'.2
+    cases hk : keepField f k <;> simp [viewAttrs, hk, viewA, wfAttrs, wfA, attrNestedAttrs, attrNested, a1, a2, b1, b2]
+  · intro k v rest hno ih f hw ha
+    have hw' : wfA v = true ∧ wfAttrs rest = true := by simpa [wfAttrs] using hw
+    have ha' : attrNested v = true ∧ attrNestedAttrs rest = true := by simpa [attrNestedAttrs] using ha
+    obtain ⟨b1, b2⟩ := ih f hw'.2 ha'.2
+    cases hk : keepField f k <;>
+      simp [viewAttrs, hk, viewA_nonobj ci v hno, wfAttrs, attrNestedAttrs, hw'.1, ha'.1, b1, b2]
+
+/-- **skip filter and field selection commute**: stripping the items `_recursive_save` iterates
+over is selecting the fields of the stripped graph -/
+theorem strip_view_comm (ci : ClassInfo) (inst : Val → String → Bool) (hI : InstOk inst) (ns ts : List String) :
+    ∀ attrs, ∀ f : Option (List String),
+    stripAttrsG inst ns ts (viewAttrs ci f attrs) = viewAttrs ci f (stripAttrsG inst ns ts attrs) := by
+  apply attrs_ind
+  · intro f; simp [viewAttrs, stripAttrsG]
+  · intro k cls sub rest ih1 ih2 f
+    have hobj : ∀ t, inst (.obj cls (viewAttrs ci (ci cls) sub)) t = inst (.obj cls sub) t :=
+      fun t => hI.objCls cls _ sub t
+    by_cases hb : (k ∈ ns ∨ ∃ x, x ∈ ts ∧ inst (.obj cls sub) x = true) <;> cases hk : keepField f k <;>
+      simp [viewAttrs, stripAttrsG, viewA, stripG, hk, hb, hobj, ih1 (ci cls), ih2 f]
+  · intro k v rest hno ih f
+    have hv := viewA_nonobj ci v hno
+    have hs := (nonobj_stripG inst ns ts v hno).1
+    by_cases hb : (k ∈ ns ∨ ∃ x, x ∈ ts ∧ inst v x = true) <;> cases hk : keepField f k <;>
+      simp [viewAttrs, stripAttrsG, hk, hb, hv, hs, ih f]
+
+/-- **C14 for graphs with attrs-class objects**: names / types at save time, names at load time —
+the loaded object is the field view of the graph with every listed attribute removed at every
+attribute-nested level; attributes that are not fields are lost with or without skipping -/
+theorem skip_general_attrs (ci : ClassInfo) (inst : Val → String → Bool) (hI : InstOk inst) (ns1 ns2 ts : List String)
+    (cls : String) (attrs : List (String × Val))
+    (hw : wfA (.obj cls attrs) = true) (ha : attrNested (.obj cls attrs) = true) :
+    loadX ⟨ns2, []⟩ (saveG inst ⟨ns1, ts⟩ (viewA ci (.obj cls attrs))) =
+      .ok (canon (viewA ci (stripG inst (ns2 ++ ns1) ts (.obj cls attrs)))) := by
+  have hw' : wfAttrs attrs = true := by simpa [wfA] using hw
+  have ha' : attrNestedAttrs attrs = true := by simpa [attrNested] using ha
+  obtain ⟨f1, f2⟩ := viewAttrs_facts ci attrs (ci cls) hw' ha'
+  have h := skip_general inst hI ns1 ns2 ts cls (viewAttrs ci (ci cls) attrs) (by simpa [wfA] using f1) (by simpa [attrNested] using f2)
+  simp only [viewA] at h ⊢
+  rw [h]
+  simp only [stripG, viewA, strip_view_comm ci inst hI (ns2 ++ ns1) ts attrs (ci cls)]
+
+/-- without skip lists: what is lost is exactly what is no field -/
+theorem attrs_noskip (ci : ClassInfo) (inst : Val → String → Bool) (hI : InstOk inst)
+    (cls : String) (attrs : List (String × Val))
+    (hw : wfA (.obj cls attrs) = true) (ha : attrNested (.obj cls attrs) = true) :
+    loadX {} (saveG inst {} (viewA ci (.obj cls attrs))) = .ok (canon (viewA ci (stripG inst [] [] (.obj cls attrs)))) := by
+  simpa using skip_general_attrs ci inst hI [] [] [] cls attrs hw ha
+
 /-! ### non-vacuity -/
 
 private def deep : Val :=
@@ -232,6 +299,16 @@ example : ∀ i, i ≠ SkipItem.other →
 -- the caller's list re-used for a second Ptychography.save with the other save_raw_data
 example : (normSkip (ptychoSkipArg (.seq [.name "a"]) false)).names = ["a", "_dset", "dset"] ∧
     (normSkip (ptychoSkipArg (.seq [.name "a"]) true)).names = ["a"] := by decide
+
+-- an attrs class: `scratch` is no field and never written; `raw` is skipped inside it and below it
+private def ciAT : ClassInfo := classInfoOf [("AT", ["count", "raw", "child"])]
+private def atree : Val :=
+  .obj "AT" [("count", .scalar (.int 3)), ("raw", .scalar (.int 1)), ("scratch", .scalar (.int 9)),
+    ("child", .obj "SB" [("raw", .scalar (.int 2)), ("deep", .obj "AT" [("count", .scalar (.bool true)), ("raw", .scalar (.int 4)),
+      ("child", .scalar .none), ("tmp", .scalar (.int 0))])])]
+example : wfA atree = true ∧ attrNested atree = true := by decide
+example : viewA ciAT (stripG isInstanceX ["raw"] [] atree) =
+    .obj "AT" [("count", .scalar (.int 3)), ("child", .obj "SB" [("deep", .obj "AT" [("count", .scalar (.bool true)), ("child", .scalar .none)])])] := by rfl
 
 end Growth6
 
